@@ -50,6 +50,11 @@ func (p *Prop) Run(line string) core.Outcome {
 		return core.Outcome{Impl: "bad-op", Tags: []string{"trivial", "malformed"}}
 	}
 	obs := RunCaseEnforced(ops)
+	if obs != nil && socketFailure(p.F.Oracle(ops, obs)) {
+		if again := RunCaseEnforced(ops); again != nil {
+			obs = again
+		}
+	}
 	if obs == nil {
 		return core.Outcome{Impl: "requested-map-order-never-came-up", Tags: []string{"order-unrealised"}}
 	}
@@ -63,6 +68,11 @@ func (p *Prop) Generate(rng *core.Rand, tier string, emit func(string)) {
 			return // the generator produced something outside the protocol (never on purpose)
 		}
 		obs := RunCase(ops, false)
+		if socketFailure(p.F.Oracle(ops, obs)) {
+			// closing the old servers' sockets is asynchronous (http.Server.Shutdown in goroutines); on a
+			// loaded machine it can outlast the settling window: confirm by running the case once more
+			obs = RunCase(ops, false)
+		}
 		for i := range ops {
 			ops[i].Env.PP = obs[i].PP
 			ops[i].Env.PS = obs[i].PS
@@ -97,6 +107,15 @@ var malformed = []string{
 	"L=0~-~0,1,0,-,5:0=1,0,0,-,-,-", "L=0~-~-=2,0,0,-,-,-", "L=0~-~-=1,0,0,-,0.0,-", "S S S S S S S S S S S S S",
 	"P=0,1,1,-,-=0,0,0,-,-,-", "L=0~-~0,x,0,-,-=1,0,0,-,-,-", "L=0~-~-=1,0,3,-,-,-",
 	"L=0~-~-=1,0,0,-,-,- L=0~-~-=1,0,1,-,-,-", "L=0~-~0,1,0,-,0:4=1,0,0,-,-,-", "L=0~-~3,1,0,-,1:4=1,0,0,-,-,-",
+}
+
+func socketFailure(fs []core.Failure) bool {
+	for _, f := range fs {
+		if strings.Contains(f.Class, "socket") {
+			return true
+		}
+	}
+	return false
 }
 
 func tagsOf(ops []Op, obs []StepObs) []string {
